@@ -316,6 +316,11 @@ def tr_expr(cx, env, e):
             b, tb, pb = tr_expr(cx, env, e.args[1])
             if ta == tb == 'int':
                 return '(Py.max %s %s)' % (a, b), 'int', pa + pb
+        if isinstance(f, ast.Attribute) and f.attr == 'issuperset' and len(e.args) == 1 and not e.keywords:
+            a, ta, pa = tr_expr(cx, env, f.value)
+            b, tb, pb = tr_expr(cx, env, e.args[0])
+            if ta == 'tup' and tb == 'tup':
+                return '(Py.issuperset %s %s)' % (a, b), 'bool', pa + pb
         if isinstance(f, ast.Attribute) and f.attr == 'bit_length' and not e.args:
             a, ta, pa = tr_expr(cx, env, f.value)
             if ta == 'int':
